@@ -36,7 +36,7 @@ func ruleC18(prog *Program, rep *Report) {
 	ruleArmTwins(prog, rep, jsonFrontEnds[0], jsonFrontEnds[3], 30) // gen.Parser is oj.Parser with gen nodes
 	rep.Rules = append(rep.Rules, "A-events: gen.Parser and oj.Parser emit the same value events as the reference at every byte and never append to a consumed scratch buffer (see C03/C07): the structural part of 'gen.Parser output equals Generify of oj.Parser output'")
 	results := exploreFrontEnds(prog, []feSpec{jsonFrontEnds[0], jsonFrontEnds[3]}, []bool{false}, false)
-	applyParseResults(rep, results, union(kindsEvents, kindsAccept, map[string]bool{"stale-scratch": true}), "A-events", 18)
+	applyParseResults(rep, results, union(kindsEvents, kindsAccept, kindsPanic, map[string]bool{"stale-scratch": true}), "A-events", 18) // a parser that panics or reads past the buffer on one chunking has no output to compare
 }
 
 func isContainerType(t types.Type) bool {
